@@ -305,8 +305,12 @@ pub fn slot_case(kind: Kind) -> Case {
 
 /// (d) parameters never become NaN or infinite (Float32, k steps from fresh state, concrete hyper-parameters)
 pub fn finite_case(kind: Kind, hname: &'static str, h: Hyper, steps: usize, constant_gradient: bool) -> Case {
+    finite_case_rank(kind, hname, h, steps, constant_gradient, Rk::D1(1))
+}
+
+pub fn finite_case_rank(kind: Kind, hname: &'static str, h: Hyper, steps: usize, constant_gradient: bool, rk: Rk) -> Case {
     Case {
-        id: format!("C03/finite/{}/{}/k{}{}", kind.tag(), hname, steps, if constant_gradient { "/constant-gradient" } else { "" }),
+        id: format!("C03/finite/{}/{}/k{}{}{}", kind.tag(), hname, steps, if constant_gradient { "/constant-gradient" } else { "" }, match rk { Rk::D1(_) => "", Rk::D2(..) => "/matrix", Rk::D3(..) => "/kernel" }),
         property: "C03",
         family: kind.family(),
         class: "finite".into(),
@@ -314,7 +318,6 @@ pub fn finite_case(kind: Kind, hname: &'static str, h: Hyper, steps: usize, cons
         max_paths: 64,
         run: Box::new(move |ctx| {
             let mut opt = build(kind, &h);
-            let rk = Rk::D1(1);
             alloc(&mut opt, 1, 1, rk);
             ctx.fp_bound = Some(1024.0);
             let w0 = v1(ctx, "w", 1);
@@ -416,6 +419,72 @@ pub fn network_slots_case(kind: Kind) -> Case {
     }
 }
 
+/// feedback level: `Feedback::update` routes every filter / bias of the block's layers to its own slot
+/// (single loop, so the coupling step is the identity and each tensor must equal its solo run)
+pub fn feedback_slots_case(kind: Kind) -> Case {
+    Case {
+        id: format!("C03/feedback-slots/{}", kind.tag()),
+        property: "C03",
+        family: "Feedback::update",
+        class: "slot-isolation".into(),
+        no_ties: false,
+        max_paths: 64,
+        run: Box::new(move |ctx| {
+            let h = sym_hyper(ctx);
+            use Act::Linear;
+            let block = vec![L::Conv(2, (1, 2), (1, 1), (0, 0), (1, 1), Linear), L::Deconv(1, (1, 2), (1, 1), (0, 0), Linear)];
+            let mut net = build_net(Shape::Triple(1, 1, 3), &[L::Feedback(block, 1, false, false, Acc::Mean)]);
+            if let Layer::Feedback(fb) = &mut net.layers[0] {
+                for (j, l) in fb.layers.iter_mut().enumerate() {
+                    symbolize_layer(ctx, l, &format!("u{}", j));
+                }
+            }
+            net.set_optimizer(build(kind, &h));
+            let before: Vec<(Vec<Tensor>, Option<Tensor>)> = match &net.layers[0] {
+                Layer::Feedback(fb) => fb.layers.iter().map(|l| hooks::params(l)).collect(),
+                _ => unreachable!(),
+            };
+            let m = before.len();
+            let mut grads: Vec<Vec<Tensor>> = Vec::new();
+            for k in 0..2 {
+                let mut wg = Vec::new();
+                for (j, (ws, _)) in before.iter().enumerate().rev() {
+                    let d = d3(&ws[0]);
+                    wg.push(Tensor::quadruple(v4(ctx, &format!("G{}u{}k", k, j), ws.len(), d.len(), d[0].len(), d[0][0].len())));
+                }
+                grads.push(wg);
+            }
+            for (k, wg) in grads.iter().enumerate() {
+                if let Layer::Feedback(fb) = &mut net.layers[0] {
+                    let mut w = Tensor::nested(wg.clone());
+                    let mut b = Tensor::nestedoptional(vec![None; m]);
+                    fb.update(k as i32 + 1, &mut w, &mut b);
+                }
+            }
+            let after: Vec<(Vec<Tensor>, Option<Tensor>)> = match &net.layers[0] {
+                Layer::Feedback(fb) => fb.layers.iter().map(|l| hooks::params(l)).collect(),
+                _ => unreachable!(),
+            };
+            for j in 0..m {
+                for (f, w0) in before[j].0.iter().enumerate() {
+                    let d = d3(w0);
+                    let rk = Rk::D3(d.len(), d[0].len(), d[0][0].len());
+                    let mut solo = build(kind, &h);
+                    alloc(&mut solo, 1, 1, rk);
+                    let mut w = w0.clone();
+                    for (k, wg) in grads.iter().enumerate() {
+                        let mut g = wg[m - 1 - j].quadruple_to_vec_triple()[f].clone();
+                        solo.update(0, 0, false, k as i32 + 1, &mut w, &mut g);
+                    }
+                    for (i, (x, y)) in elems(&after[j].0[f]).iter().zip(elems(&w).iter()).enumerate() {
+                        ctx.eq(&format!("layer{}-filter{}[{}]", j, f, i), *x, *y);
+                    }
+                }
+            }
+        }),
+    }
+}
+
 /// Negative control: Adam compared with a reference that forgets the bias correction.
 pub fn control_case() -> Case {
     Case {
@@ -489,6 +558,9 @@ pub fn cases(tier: Tier, seed: u64) -> Vec<Case> {
     for kind in [Kind::SGDM { decay: true, dampening: true }, Kind::Adam { decay: true }, Kind::RMSprop { decay: true, momentum: true, centered: true }] {
         out.push(network_slots_case(kind));
     }
+    for kind in [Kind::Adam { decay: false }, Kind::SGDM { decay: false, dampening: false }, Kind::RMSprop { decay: false, momentum: true, centered: false }] {
+        out.push(feedback_slots_case(kind));
+    }
     if full {
         out.push(network_slots_case(Kind::AdamW));
         out.push(network_slots_case(Kind::SGD { decay: true }));
@@ -515,7 +587,12 @@ pub fn cases(tier: Tier, seed: u64) -> Vec<Case> {
             continue;
         }
         let h = conc_hyper(0.01, 0.01, alpha, 0.9, 0.999, 1e-8);
-        out.push(finite_case(Kind::RMSprop { decay: false, momentum: false, centered: true }, name, h, 3, true));
+        out.push(finite_case(Kind::RMSprop { decay: false, momentum: false, centered: true }, name, h.clone(), 3, true));
+        if name == "alpha0.001" || full {
+            // every rank has its own copy of the update loop
+            out.push(finite_case_rank(Kind::RMSprop { decay: false, momentum: false, centered: true }, name, h.clone(), 3, true, Rk::D2(1, 1)));
+            out.push(finite_case_rank(Kind::RMSprop { decay: false, momentum: false, centered: true }, name, h, 3, true, Rk::D3(1, 1, 1)));
+        }
     }
     out.push(control_case());
     out
